@@ -265,9 +265,12 @@ def mutant_selftest(pid, jobs):
             p = subprocess.run([sys.executable, '-m', 'pyvc.runner', pid, '--tier', 'quick', '--jobs', str(jobs)], cwd=VERIF, env=env,
                                capture_output=True, text=True, timeout=3600)
             viol = [l for l in p.stdout.splitlines() if l.startswith('VIOLATION')]
-            out.append({'seed': name, 'status': 'detected' if p.returncode == 1 and viol else 'NOT detected (exit %d)' % p.returncode,
-                        'exit': p.returncode, 'obligations_failed': [re.sub(r'.*obligation=', '', v)[:160] for v in viol[:4]],
-                        'wall_s': round(time.time() - t0, 1)})
+            rec = {'seed': name, 'status': 'detected' if p.returncode == 1 and viol else 'NOT detected (exit %d)' % p.returncode,
+                   'exit': p.returncode, 'obligations_failed': [re.sub(r'.*obligation=', '', v)[:160] for v in viol[:4]],
+                   'wall_s': round(time.time() - t0, 1)}
+            if meta.get('not_caught') and rec['status'] != 'detected':
+                rec['why'] = meta['not_caught']        # a change this family cannot see, recorded when it was first tried
+            out.append(rec)
         except Exception as e:
             out.append({'seed': name, 'status': 'self-test failed to run: %r' % (e,)})
         finally:
